@@ -23,6 +23,10 @@ class VDef:
         return has_fact(self.facts, src, truth)
 
 
+def is_call_(e, name: str) -> bool:
+    return isinstance(e, ast.Call) and isinstance(e.func, ast.Name) and e.func.id == name
+
+
 def pure_helpers(fi) -> Dict[str, Tuple[ast.FunctionDef, ast.AST]]:
     """One-expression helpers whose calls can be read as the expression they return: functions nested in `fi` or its enclosing
     function, module-level functions of the same module, methods of the same class (keyed `self.<name>`)."""
@@ -497,6 +501,60 @@ class Fn:
         if len(st.loops) != 1 + len(self.cfg.nodes[site].loops):
             return None
         return self.loop_store_comp(st)
+
+    def local_memo_read(self, nid: int, e: ast.AST) -> Optional[ast.AST]:
+        """`D[k]` read as `V` when the local `D` starts empty and is filled at one place only, `if k not in D: D[k] = V`, with
+        a key that fixes V: whatever in V changes from one pass of the loop to the next is an element of the key
+        (`kind = (s.shape, s.dtype); D[kind] = np.full(s.shape, x, dtype=s.dtype)`).  The value handed out may then be
+        the one made on an earlier pass - the same object - but it is equal to V made now.  None if not of that form."""
+        if not (isinstance(e, ast.Subscript) and isinstance(e.value, ast.Name) and e.value.id in self.lf.locals and isinstance(e.ctx, ast.Load)):
+            return None
+        D = e.value.id
+        inits = [n for n in self.assigns_to(D)]
+        if len(inits) != 1 or not ((isinstance(inits[0].ast.value, ast.Dict) and not inits[0].ast.value.keys) or (is_call_(inits[0].ast.value, 'dict') and not inits[0].ast.value.args)):
+            return None
+        stores = [n for n in self.cfg.nodes if n.kind == 'stmt' and isinstance(n.ast, ast.Assign) and len(n.ast.targets) == 1 and isinstance(n.ast.targets[0], ast.Subscript)
+                  and text(n.ast.targets[0].value) == D]
+        other = [n for n in self.cfg.nodes if n.ast is not None and n.kind == 'stmt' and n not in stores and n is not inits[0]
+                 and any(isinstance(x, ast.Call) and isinstance(x.func, ast.Attribute) and text(x.func.value) == D and x.func.attr in
+                         ('update', 'pop', 'clear', 'setdefault', 'popitem') for x in ast.walk(n.ast))]
+        if len(stores) != 1 or other:
+            return None
+        st = stores[0]
+        k_store, k_read = st.ast.targets[0].slice, e.slice
+        if self.etext(st.id, k_store) != self.etext(nid, k_read) or st.id not in self.dom[nid] and not self.cfg.reaches(st.id, nid):
+            return None
+        if not (self.holds(st.id, f'{text(k_store)} not in {D}') or self.holds(st.id, f'{text(k_store)} in {D}', False)):
+            return None
+        key = self.expand(st.id, k_store)
+        parts = {text(x) for x in (key.elts if isinstance(key, ast.Tuple) else [key])}
+        V = self.expand(st.id, st.ast.value)
+        # what varies between passes: locals defined inside the loop(s) around the store
+        loop_locals = set()
+        for lid in st.loops:
+            for m in self.cfg.nodes:
+                if lid in m.loops or m.id == lid:
+                    a_ = m.ast
+                    if m.kind == 'for' and a_ is not None:
+                        loop_locals |= {x.id for x in ast.walk(a_.target) if isinstance(x, ast.Name)}
+                    elif m.kind == 'stmt' and isinstance(a_, (ast.Assign, ast.AugAssign, ast.AnnAssign)):
+                        for t_ in (a_.targets if isinstance(a_, ast.Assign) else [a_.target]):
+                            loop_locals |= {x.id for x in ast.walk(t_) if isinstance(x, ast.Name) and isinstance(x.ctx, ast.Store)}
+        par = {}
+        for p_ in ast.walk(V):
+            for c_ in ast.iter_child_nodes(p_):
+                par[id(c_)] = p_
+        for x in ast.walk(V):
+            if isinstance(x, ast.Name) and x.id in loop_locals:
+                cur, covered = x, False
+                while cur is not None:
+                    if text(cur) in parts:
+                        covered = True
+                        break
+                    cur = par.get(id(cur))
+                if not covered:
+                    return None
+        return V
 
     def dict_lookup_read(self, nid: int, e: ast.AST) -> ast.AST:
         """`D[k]` read as `V(k, M[k])` when the local `D` is `{a: V(a, b) for a, b in M.items()}` (or `{a: V(a) for a in M}`),
